@@ -948,7 +948,45 @@ def slice_contains(ev, cx, args):
     return model_loop(ev, cx, "any", recv, body, lambda env, L: ("int", 0))
 
 
-# ---------------------------------------------------------------------------- mem::swap with a local
+# ---------------------------------------------------------------------------- mem::replace / take / swap
+
+def _replace(ev, cx, env, path, place, value):
+    """`mem::replace(place, value)`: what the place held comes back, the place now holds `value`."""
+    if isinstance(place, tuple) and place and place[0] == "cellref":
+        cell = place[1]
+        old = env.get(cell, ("undef",) + tuple(cell))
+        env[cell] = value
+        path.events.append(("store", cx.site, ("cell", cell), value))
+        return old
+    mem = env.get("mem") or {}
+    old = mem.get(place, place)     # the bare place term stands for what it held when the path began
+    path.events.append(("store", cx.site, place, value))
+    ev._remember(env, place, value)
+    return old
+
+
+@model("replace", "mem")
+def mem_replace(ev, cx, args):
+    if len(args) != 2:
+        return None
+    old = _replace(ev, cx, cx.env, cx.path, args[0], args[1])
+    return [("val", cx.env, cx.path, old)]
+
+
+@model("take", "mem")
+def mem_take(ev, cx, args):
+    if len(args) != 1:
+        return None
+    c = PseudoCallee("default", path="std::default::Default::default", trait="std::default::Default")
+    out = []
+    for r in ev.opaque((cx.fid, (cx.bb, "default")), c, (), cx.env, cx.path):
+        if r[0] != "val":
+            out.append(r)
+            continue
+        old = _replace(ev, cx, r[1], r[2], args[0], r[3])
+        out.append(("val", r[1], r[2], old))
+    return out
+
 
 @model("swap", "mem")
 def mem_swap(ev, cx, args):
@@ -964,12 +1002,7 @@ def mem_swap(ev, cx, args):
     val = cx.env.get(cell)
     if val is None or val[0] in ("undef", "havoc"):
         return None
-    c = PseudoCallee("replace", path="std::mem::replace")
-    out = []
-    for r in ev.opaque((cx.fid, (cx.bb, "replace")), c, (a, val), cx.env, cx.path):
-        if r[0] == "val":
-            r[1][cell] = r[3]
-            out.append(("val", r[1], r[2], UNIT))
-        else:
-            out.append(r)
-    return out
+    old = _replace(ev, cx, cx.env, cx.path, a, val)
+    cx.env[cell] = old
+    return [("val", cx.env, cx.path, UNIT)]
+
